@@ -25,6 +25,7 @@ type Config struct {
 	Seed            int64
 	Strings         bool   // string mode: cvc5 is the deciding solver
 	SplitMax        int    // max pieces strings.Split may produce on a symbolic string
+	YieldUnlock     bool   // Mutex.Unlock is a preemption point too
 	BlockChoices    bool   // explore every choice of the next thread at blocking points (else round-robin)
 	Property        string // obligations tagged with other properties are skipped
 }
